@@ -12,7 +12,11 @@
 (*                                                                         *)
 (* Abstract value: [title |-> [some, v], addr |-> canonical address text]. *)
 (* Premise of the property: the title contains no '@' (and, being an AE    *)
-(* title, is not empty); an address without a title contains no '@'.       *)
+(* title, is not empty).  The network address text itself MAY contain '@'  *)
+(* (only possible for the "str" type, e.g. "dicom@pacs.example.com:104"):  *)
+(* with a title the split at the first '@' still finds the title; without  *)
+(* a title the text is printed with a leading '@' (empty title part), so   *)
+(* that the start of the address is not taken for a title.                 *)
 (***************************************************************************)
 EXTENDS Naturals, Sequences
 
@@ -25,11 +29,12 @@ RECURSIVE FirstOf(_, _, _)
 FirstOf(s, c, i) == IF i > Len(s) THEN 0 ELSE IF Ch(s, i) = c THEN i ELSE FirstOf(s, c, i + 1)
 HasAt(s) == FirstOf(s, "@", 1) # 0
 
-Premise(a) == IF a.title.some THEN a.title.v # "" /\ ~HasAt(a.title.v) ELSE ~HasAt(a.addr)
+Premise(a) == a.title.some => (a.title.v # "" /\ ~HasAt(a.title.v))
 
 -----------------------------------------------------------------------------
 (* printing *)
-PrintAe(a) == IF a.title.some THEN a.title.v \o "@" \o a.addr ELSE a.addr
+PrintAe(a) == IF a.title.some THEN a.title.v \o "@" \o a.addr
+              ELSE IF HasAt(a.addr) THEN "@" \o a.addr ELSE a.addr
 PrintFull(a) == a.title.v \o "@" \o a.addr          \* a.title.some
 
 -----------------------------------------------------------------------------
